@@ -398,7 +398,7 @@ func RunBatch(o BatchOpts) int {
 		res.Goroutines += c.Goroutines
 		res.SimTimeS += c.SimTime.Seconds()
 		for k, v := range c.Stats {
-			if k == "max_runnable" {
+			if strings.HasPrefix(k, "max_") {
 				if v > res.Stats[k] {
 					res.Stats[k] = v
 				}
